@@ -3,6 +3,7 @@ from harness.common import sx
 from harness.props import corpus as K
 from harness.props import c01 as B
 from harness.props import c04
+from harness.props import c07
 
 ID = "C20"
 ENTRY = "ThreadPoolExecutor.map(query, ...) vs [query(...) for ...]"
@@ -55,8 +56,13 @@ def gen(rng, tier):
             elif r < 0.95:
                 n_a = sizes[a]
                 qs.append(["select", a, [rng.randrange(n_a) for _ in range(rng.randint(1, 4))]])
-            else:
+            elif r < 0.975:
                 qs.append(["edismax", a, [rng.choice(voc)]])
+            else:
+                # scoring with a non-default / user-defined similarity (and edismax with one), concurrently
+                qs.append(["simscore", a, t, rng.choice(c07.SIMS)])
+        if rng.random() < 0.3:
+            qs.append(["lens", rng.randrange(len(sizes))])
         nact = 3 * len(qs)
         sched = [rng.randrange(len(qs)) for _ in range(nact)]
         cases.append({"docs": docs, "cache_gt": rng.choice([0, 1, 25]), "setup": setup, "queries": qs, "sched": sched,
@@ -97,6 +103,14 @@ def impl(case):
             if q[0] == "edismax":
                 s, _ = edismax(pd.DataFrame({"f": arr}), q=" ".join(K.tok_name(t) for t in q[2]), qf=["f"], pf=["f"])
                 return ["okf", [round(float(x), 6) for x in s]]
+            if q[0] == "simscore":
+                if q[3] == "edismax_classic":
+                    s, _ = edismax(pd.DataFrame({"f": arr}), q=K.tok_name(q[2]), qf=["f"], similarity=c07._make_sim(q[3]))
+                else:
+                    s = arr.score(K.tok_name(q[2]), similarity=c07._make_sim(q[3]))
+                return ["okf", ["nan" if x != x else round(float(x), 6) for x in s]]
+            if q[0] == "lens":
+                return ["ok", [K._intf(x) for x in arr.doclengths()]]
         except Exception as e:      # noqa
             return ["exc", type(e).__name__]
         return ["exc", "unknown"]
@@ -140,6 +154,8 @@ def model_req(case):
             qs.append(["score", q[1], q[2], q[3], 4608083138725491507, 4604930618986332160])
         elif q[0] == "edismax":
             qs.append(["df", q[1], q[2][0]])      # placeholder action for the model's schedule
+        elif q[0] in ("simscore", "lens"):
+            qs.append(["df", q[1], q[2] if q[0] == "simscore" else 0])
         else:
             qs.append(list(q))
     return sx(["conc_run", case["cache_gt"], K.docs_sx(case["docs"]), case["setup"], qs, case["sched"]])
@@ -150,7 +166,7 @@ def model_decode(case, r):
         return {"modelfault": r}
     out = []
     for q, v in zip(case["queries"], r[1]):
-        if q[0] == "edismax":
+        if q[0] in ("edismax", "simscore", "lens"):
             out.append(["skip"])
         elif v[0] == "ok":
             val = v[1]
